@@ -191,6 +191,8 @@ def generate(rng, tier):
             c["keep"] = "rotated"   # the transferable signer's current key pair (in both keeps) is not the one in its vid
         if authic and rng.random() < 0.4:
             c["rxclass"] = "auth"   # receiver is an AuthMemoer
+        if rng.random() < 0.3:
+            c["own"] = True         # application-owned containers (rx dicts, rxms, keep) handed EMPTY to the constructors
         if rng.random() < 0.6:      # the receiver's own transmit settings, independent of the senders'
             c["rx"] = {"size": rng.choice([1, 33, 38, 40, 64, 125, 170, 200]), "curt": rng.random() < 0.5,
                        "code": rng.choice(mc.ZERO_CODES)}
@@ -306,6 +308,8 @@ def _tx_generate(rng, n, base):
         out.append(_tx_case(cfg, memos, policy, ops, authic=(sg is not None and rng.random() < 0.8), budget=600))
         if rng.random() < 0.5:
             out[-1]["rxvid"] = True
+        if rng.random() < 0.3:
+            out[-1]["own"] = True
     return out
 
 
@@ -360,7 +364,14 @@ def _run_tx(case):
             return n
 
     vid = vids[cfg["signer"]] if cfg["signer"] is not None else None
-    tx = TxSender(code=cfg["code"], curt=cfg["curt"], size=cfg["size"], keep=keep, vid=vid)
+    own = case.get("own", False)
+    if own:                         # the application owns (empty) txms, txgs and keep objects
+        from collections import deque
+        owned = {"txms": deque(), "txgs": deque(), "keep": {}}
+        tx = TxSender(code=cfg["code"], curt=cfg["curt"], size=cfg["size"], vid=vid, **owned)
+        owned["keep"].update(keep)
+    else:
+        tx = TxSender(code=cfg["code"], curt=cfg["curt"], size=cfg["size"], keep=keep, vid=vid)
     tx.opened = True
     tx.slog, tx.rends = [], []
     tx.mids = [mc.mid_of(m["mid"]) for m in case["memos"]]     # memos are rent in queue order
@@ -371,7 +382,10 @@ def _run_tx(case):
         try:
             if op[0] == "memoit":
                 m = case["memos"][op[1]]
-                tx.memoit(m["text"], str(m["dst"]), vid)
+                if own:
+                    owned["txms"].append((m["text"], str(m["dst"]), vid))     # the application fills ITS queue
+                else:
+                    tx.memoit(m["text"], str(m["dst"]), vid)
                 order.append(op[1])
             elif op[0] == "svc":
                 tx.serviceAllTx()
@@ -393,7 +407,7 @@ def _run_tx(case):
     # receivers, one per destination
     rxs = {}
     for dst in sorted({str(m["dst"]) for m in case["memos"]}):
-        rx = mc.new_receiver(case["authic"], **({"vid": int(dst) % 3} if case.get("rxvid") else {}))
+        rx = mc.new_receiver(case["authic"], own=own, **({"vid": int(dst) % 3} if case.get("rxvid") else {}))
         ops = []
         for d in state["delivered"].get(dst, []):
             ops += [["dgram", d.hex(), 1], ["all"]]
@@ -420,6 +434,8 @@ def _oracle_tx(case, obs):
     if any(obs["excs"]):
         return f"transmit servicing raised {obs['excs']}"
     for o in obs["rxs"].values():
+        if o.get("not_adopted"):
+            return f"containers handed to a receiver's constructor are not the ones it uses: {o['not_adopted']}"
         if any(o["excs"]):
             return f"receive servicing raised {o['excs']}"
     vidhex = None if obs["vid"] is None else obs["vid"].encode().hex()
@@ -473,7 +489,7 @@ def _tx_to_coq(case, obs):
     from harness.core import coq_option
     txgs = [f"({mc.hexb(g)}, {coq_N(int(d))})" for g, d in obs["txgs"]]
     txbs = f"({mc.hexb(obs['txbs'][0])}, {coq_option(None if obs['txbs'][1] is None else int(obs['txbs'][1]), coq_N, 'N')})"
-    tx = ("{| MemoTx.c_ops := %s; MemoTx.c_script := %s; MemoTx.c_excs := %s; MemoTx.c_accepted := %s; "
+    tx = ("{| MemoTx.c_txbs0 := ((@nil N), (@None N)); MemoTx.c_ops := %s; MemoTx.c_script := %s; MemoTx.c_excs := %s; MemoTx.c_accepted := %s; "
           "MemoTx.c_txgs := %s; MemoTx.c_txbs := %s |}" % (
               coq_list(txops, "MemoTx.op"), coq_list(script, "MemoTx.kres"),
               coq_list([coq_option(e, ty="exn") for e in texcs], "option exn"), coq_list(acc, "N * bytes"),
@@ -486,8 +502,10 @@ def _tx_to_coq(case, obs):
 
 # --------------------------------------------------------------------------- implementation
 
-def _sender(memo, keepmode="full"):
+def _sender(memo, keepmode="full", own=False):
     keep, vids = mc.keep_and_vids(keepmode)
+    if own:                        # the application hands an empty keep to the constructor and fills it afterwards
+        real_keep, keep = keep, {}
     cls = mc.memoer_class()
 
     class Sender(cls):
@@ -500,6 +518,8 @@ def _sender(memo, keepmode="full"):
 
     vid = vids[memo["signer"]] if memo["signer"] is not None else None
     m = Sender(code=memo["code"], curt=memo["curt"], size=memo["size"], keep=keep, vid=vid)
+    if own:
+        keep.update(real_keep)
     for op in memo.get("hist", []):
         setattr(m, op[0], op[1])                    # the real property setters
     m.slog = []
@@ -532,7 +552,7 @@ def run_impl(case):
         return _run_tx(case)
     sent, slog = [], []
     for memo in case["memos"]:
-        tx, vid = _sender(memo, case.get("keep", "full"))
+        tx, vid = _sender(memo, case.get("keep", "full"), case.get("own", False))
         try:
             grams = [bytes(g).hex() for g in tx.rend(memo["text"], vid)]
             exc = None
@@ -541,7 +561,7 @@ def run_impl(case):
         slog += tx.slog
         sent.append({"grams": grams, "exc": exc, "size": tx.size, "vid": vid, "code": tx.code, "curt": bool(tx.curt)})
     sched, ops = _ops(case, sent)
-    rx = mc.new_receiver(case["authic"], case.get("keep", "full"), case.get("rxclass"), **case.get("rx", {}))
+    rx = mc.new_receiver(case["authic"], case.get("keep", "full"), case.get("rxclass"), case.get("own", False), **case.get("rx", {}))
     excs = mc.run_rx_ops(rx, ops)
     obs = mc.observe_rx(rx)
     obs.update({"excs": excs, "sent": sent, "sign": slog, "sched": sched, "ops": ops})
@@ -581,6 +601,8 @@ def _count_in_header(gram, curt):
 def oracle(case, obs):
     if case.get("kind") == "tx":
         return _oracle_tx(case, obs)
+    if obs.get("not_adopted"):
+        return f"containers handed to the receiver's constructor are not the ones it uses: {obs['not_adopted']}"
     if any(obs["excs"]):
         return f"receive servicing raised {obs['excs']}"
     for memo, s in zip(case["memos"], obs["sent"]):
